@@ -108,8 +108,12 @@ func (r *Rule) String() string {
 // NullableVisit recursively determines whether an object is nullable.
 func (r *Rule) NullableVisit(rules map[string]*Rule) bool {
 	if r.Visited {
-		// A left-recursive rule is considered non-nullable.
-		return false
+		// The rule is being visited further up: use what is known about it so
+		// far. ComputeNullables repeats the visits until nothing changes, so
+		// the result is the least fixpoint and does not depend on the order
+		// in which the rules are visited (a rule that is only left-recursive
+		// stays non-nullable).
+		return r.Nullable
 	}
 	r.Visited = true
 	r.Nullable = r.Expr.NullableVisit(rules)
